@@ -30,7 +30,7 @@ RULE = ('tables: S(12)/S(16) ∪ F ∪ P ∪ W as in C03; per table every argume
 ASSUMPTIONS = ['R1 derivation is the definition (all()/any() over rows); on wide tables the '
                'equivalent intersection-of-row-sets form, cross-checked in the self test',
                'labels are opaque strings; two labelings explored on S and F']
-HITS = ('hit_multi_arg', 'hit_sibling_schedule', 'hit_str_argument')
+HITS = ('hit_multi_arg', 'hit_sibling_schedule', 'hit_call_pairs', 'hit_str_argument')
 BUDGET = {'quick': 240, 'thorough': 3000}
 
 BOUNDARY = (0, 1, 2, 28, 29, 30, 31, 32, 58, 59, 60, 61, 62, 63, 64, 65, 66, 126, 127, 128, 129)
@@ -161,6 +161,45 @@ def check_case(case, ctr):
     check_axis(case, ctr, V, 'ext', case.m, pblock, wide)
     if ctx.intension(()) != case.props or ctx.extension(()) != case.objs:
         V.append(common.violation(ID, 'empty-collection', case.ident(), None, None))
+    # every ordered pair of consecutive calls on ONE context: the first an accepted or a rejected
+    # call (a valid collection followed / preceded by an unknown label, or by a label of the
+    # other axis), the second any collection; the answer to the second call is what is judged
+    if case.labeling == space.ASC and case.variant == 'fresh' and case.n <= 3 and case.m <= 3 \
+            and not V:
+        ctr['hit_call_pairs'] += 1
+        ref = case.ref
+        qs = []
+        for which, lab, other in (('int', case.objs, case.props), ('ext', case.props, case.objs)):
+            for r in range(len(lab) + 1):
+                for sub in itertools.combinations(range(len(lab)), r):
+                    names = [lab[i] for i in sub]
+                    qs.append((which, sub, names, True))
+                    qs.append((which, sub, names + ['\x00unknown'], False))
+                    qs.append((which, sub, ['\x00unknown'] + names, False))
+                    qs.append((which, sub, names + [other[0]], False))
+        for w1, _, names1, ok1 in qs:
+            f1 = ctx.intension if w1 == 'int' else ctx.extension
+            for w2, sub2, names2, ok2 in qs:
+                if not ok2:
+                    continue
+                try:
+                    f1(names1)
+                    raised = False
+                except KeyError:
+                    raised = True
+                if w2 == 'int':
+                    got, exp = ctx.intension(names2), case.plab(ref.intent_of(sub2))
+                else:
+                    got, exp = ctx.extension(names2), case.olab(ref.extent_of(sub2))
+                ctr['calls'] += 2
+                if got != exp:
+                    V.append(common.violation(
+                        ID, 'derivation-after-previous-call',
+                        case.ident(previous=[w1, names1, 'raised KeyError' if raised else 'returned'],
+                                   call=[w2, names2]), exp, got))
+                    break
+            if V:
+                break
     # interleaving with sibling contexts over the same labels but another table
     if case.labeling == space.ASC and case.n * case.m <= 16 and not V:
         older, a, newer, iref = e1.sibling_schedule(case)
@@ -273,6 +312,7 @@ def run_shard(shard, tier):
                 vs += check_case(case, ctr)
             except Exception as e:
                 vs += [common.library_exception(ID, case.ident(), e)]
+            e1.track(case, vs, tier)
             ctr['evaluations'] += 2
             ctr['hit_str_argument'] += 1
             res['violations'].extend(vs[:2])
